@@ -80,6 +80,7 @@ def step (s : St) (line : String) : St × String :=
           else if s'.dlvS.length > s.dlvS.length then "s:" ++ toString ((s'.dlvS.getLast?.map (·.2)).getD 0)
           else "-"
         (s', showState s' inv)
+  | some "bystander" => (s, "ok")   -- a second mailbox of the same producer is unaffected (and does not affect this one)
   | some "quiesce" =>
     (s, s!"quiet={b01 (quietB s)} st={b01 s.run} um={s.um} sm={s.sm} susp={b01 s.susp} paused={b01 s.paused} du={showIds s.dlvU} ds={showSIds s.dlvS}")
   | _ => (s, "bad-op")
@@ -93,7 +94,7 @@ structure Sp where
   dlvS : List Nat := []
   idx : Nat := 0
   pushIdxS : List (Nat × Nat) := [] -- (id, step index of its push)
-  lastEmptyPops : Nat := 0          -- step index of the consumer's latest system pop that returned nothing
+  lastEmptyPops : Nat := 0          -- step index of the consumer's latest system pop ATTEMPT (empty or not)
   deriving Inhabited
 
 def sender (id : Nat) : Nat := id / 1000
@@ -112,6 +113,8 @@ def specStep (sp : Sp) (line : String) : Sp × String :=
     if (obs.splitOn "panic").length > 1 then (sp, "VIOLATION C09/crash " ++ op ++ " -> " ++ obs) else
     match ws.head? with
     | some "reset" => ({}, "ok")
+    | some "bystander" =>
+      if obs == "ok" then (sp, "ok") else (sp, "VIOLATION C09/foreign-mailbox-interference " ++ obs)
     | some "step" =>
       let sp := { sp with idx := sp.idx + 1 }
       let msg := (kvNat ws "msg").getD 0
@@ -128,7 +131,8 @@ def specStep (sp : Sp) (line : String) : Sp × String :=
           else if !sp.pushedU.contains id then (sp, s!"VIOLATION C09/delivered-unposted user message {id}")
           else if !orderOk sp.dlvU id then (sp, s!"VIOLATION C09/sender-order user message {id} delivered after a later one of the same sender")
           else
-            -- system first: no system message whose push completed before the latest empty system pop may still be waiting
+            -- system first: a system message whose push completed before the consumer's latest system pop
+            -- attempt would have been popped then or earlier; none may still be waiting now
             let waiting := sp.pushIdxS.filter fun p => !sp.dlvS.contains p.1 && p.2 < sp.lastEmptyPops
             if !waiting.isEmpty then (sp, s!"VIOLATION C09/user-before-system user message {id} delivered while system message {waiting.head!.1} was queued")
             else ({ sp with dlvU := sp.dlvU ++ [id] }, "ok")
@@ -137,10 +141,10 @@ def specStep (sp : Sp) (line : String) : Sp × String :=
           if sp.dlvS.contains id then (sp, s!"VIOLATION C09/delivered-twice system message {id}")
           else if !sp.pushedS.contains id then (sp, s!"VIOLATION C09/delivered-unposted system message {id}")
           else if !orderOk sp.dlvS id then (sp, s!"VIOLATION C09/sender-order system message {id}")
-          else ({ sp with dlvS := sp.dlvS ++ [id] }, "ok")
+          else ({ sp with dlvS := sp.dlvS ++ [id], lastEmptyPops := if kv ws "pt" == some "run.pops" then sp.idx else sp.lastEmptyPops }, "ok")
         else
           -- an empty system pop moves the consumer from run.pops to run.lsusp
-          if kv ws "pt" == some "run.pops" && kv ows "cpc" == some "lsusp" then ({ sp with lastEmptyPops := sp.idx }, "ok")
+          if kv ws "pt" == some "run.pops" then ({ sp with lastEmptyPops := sp.idx }, "ok")
           else (sp, "ok")
       | none => (sp, "ok")
     | some "quiesce" =>
